@@ -366,68 +366,77 @@ def r5(repo, run):
 
 
 def r5b(repo, run):
-    """relocation of relative jumps evaluated: one iteration of the loop over the recorded relative jumps is interpreted; the old
-    absolute target it looks up in the location map is computed for concrete (position, distance) pairs and every jump opcode name -
-    a jump whose name says BACKWARD goes back by its operand, every other one forward (this interpreter counts in code units)"""
+    """relocation of relative jumps evaluated: the code that re-targets one recorded relative jump (the body of the loop over them, or
+    the helper it calls) is interpreted; the old absolute target it looks up in the location map is computed for concrete
+    (position, distance) pairs and every jump opcode name - a jump whose name says BACKWARD goes back by its operand, every other
+    one forward (this interpreter counts in code units)"""
     import sys
+    from ..srcmodel import FuncInfo
     fi = repo.func('EvalNode._patch_access_to_globals')
     fam = _family(repo, fi)
-    holder = None
+    unit = None
     for g in fam:
-        for st in ast.walk(g.node):
-            if isinstance(st, ast.For) and 'BACKWARD' in norm(st):
-                holder = (g, st)
-    if holder is None:
-        raise AnalysisError('_patch_access_to_globals: the loop that re-targets relative jumps (BACKWARD test) was not found')
-    g, loop = holder
-    top = loop
-    while getattr(top, '_parent', None) is not g.node:
-        top = getattr(top, '_parent', None)
-        if top is None:
-            raise AnalysisError('_patch_access_to_globals: jump loop is not inside the function body')
-    # the loop is interpreted on its own: what it reads from the rest of the function (the recorded jump positions, the two
-    # location maps, the rewritten code units) are free symbols
-    from ..srcmodel import FuncInfo
-    bound = {n.id for n in ast.walk(loop) if isinstance(n, ast.Name) and isinstance(n.ctx, ast.Store)}
-    free = sorted({n.id for n in ast.walk(loop) if isinstance(n, ast.Name) and isinstance(n.ctx, ast.Load)} - bound - {'python_is_at_least', 'dis', 'abs', 'len', 'range', 'True', 'False', 'None'})
-    synth = ast.FunctionDef(name='%s__jump_loop' % g.name, args=ast.arguments(posonlyargs=[], args=[ast.arg(arg=n) for n in free], kwonlyargs=[], kw_defaults=[], defaults=[]),
-                            body=[loop], decorator_list=[], returns=None, type_comment=None)
-    ast.copy_location(synth, loop)
-    synth.end_lineno = loop.end_lineno
-    paths = Tracer(repo, follow_exceptions=False, max_paths=40000).trace(FuncInfo(synth, g.module), upto=None)
+        loops = [st for st in ast.walk(g.node) if isinstance(st, ast.For) and 'BACKWARD' in norm(st)]
+        if loops:
+            unit = (g, loops[-1])
+            break
+    if unit is None:
+        for g in fam:
+            if g is not fi and 'BACKWARD' in norm(g.node):
+                unit = (g, None)
+                break
+    if unit is None:
+        raise AnalysisError('_patch_access_to_globals: the code that re-targets relative jumps (BACKWARD test) was not found')
+    g, loop = unit
+    if loop is not None:
+        # the loop is interpreted on its own: what it reads from the rest of the function (the recorded jump positions, the two
+        # location maps, the rewritten code units) are free symbols
+        bound = {n.id for n in ast.walk(loop) if isinstance(n, ast.Name) and isinstance(n.ctx, ast.Store)}
+        free = sorted({n.id for n in ast.walk(loop) if isinstance(n, ast.Name) and isinstance(n.ctx, ast.Load)} - bound - {'python_is_at_least', 'dis', 'abs', 'len', 'range', 'True', 'False', 'None'})
+        synth = ast.FunctionDef(name='%s__jump_loop' % g.name, args=ast.arguments(posonlyargs=[], args=[ast.arg(arg=n) for n in free], kwonlyargs=[], kw_defaults=[], defaults=[]),
+                                body=[loop], decorator_list=[], returns=None, type_comment=None)
+        ast.copy_location(synth, loop)
+        synth.end_lineno = loop.end_lineno
+        target = FuncInfo(synth, g.module, g.cls)
+    else:
+        target = g
+    paths = Tracer(repo, follow_exceptions=False, max_paths=40000).trace(target)
     base = dict(tr.module_consts(g.module))
     for v in ((3, 8), (3, 9), (3, 10), (3, 11), (3, 12), (3, 13), (3, 14)):
         base['python_is_at_least(%d, %d)' % v] = tuple(sys.version_info[:2]) >= v
     J, R = 10, 4
     rows = 0
     bad = set()
-    seen_store = False
+    seen = False
     for p in paths:
-        for e in p.events:
-            if e.kind != 'store' or e.value is None or e.node is None or not (loop.lineno <= getattr(e.node, 'lineno', 0) <= loop.end_lineno):
-                continue
-            v = e.value.ast
+        cands = [e.value.ast for e in p.events if e.kind == 'store' and e.value is not None]
+        if p.status == 'return' and p.ret is not None:
+            cands.append(p.ret.ast)
+        for v in cands:
             if not (isinstance(v, ast.BinOp) and isinstance(v.op, ast.Add) and isinstance(v.right, ast.Call) and isinstance(v.right.func, ast.Attribute) and v.right.func.attr == 'to_bytes'):
                 continue
             new_rel = v.right.func.value
-            subs = [x for x in ast.walk(new_rel) if isinstance(x, ast.Subscript) and 'each(' in norm(x.slice) and not isinstance(x.slice, ast.Constant)]
-            # the location-map lookup: the subscript whose index is itself computed from the jump's position and operand
-            look = [x for x in subs if any(isinstance(y, ast.BinOp) for y in ast.walk(x.slice))]
+            # the location-map lookup: a subscript whose index is computed (position +/- operand)
+            look = [x for x in ast.walk(new_rel) if isinstance(x, ast.Subscript) and not isinstance(x.slice, (ast.Constant, ast.Slice)) and any(isinstance(y, ast.BinOp) and isinstance(y.op, (ast.Add, ast.Sub)) for y in ast.walk(x.slice))]
             if not look:
                 continue
-            seen_store = True
             idx = look[0].slice
-            subst0 = {}
-            optext = None
+            # the code unit of the jump: <units>[<k>] read as (opcode, operand) = [0], [1]; its position in the old code: <map>[<k>]
+            unit_sub = None
             for x in ast.walk(idx):
-                if isinstance(x, ast.Subscript) and isinstance(x.slice, ast.Constant) and x.slice.value == 1 and isinstance(x.value, ast.Subscript) and norm(x.value.slice).startswith('each('):
-                    subst0[norm(x)] = R
-                    optext = norm(ast.Subscript(value=x.value, slice=ast.Constant(value=0), ctx=ast.Load()))
+                if isinstance(x, ast.Subscript) and isinstance(x.slice, ast.Constant) and x.slice.value == 1 and isinstance(x.value, ast.Subscript):
+                    unit_sub = x.value
+            if unit_sub is None:
+                continue
+            seen = True
+            key = norm(unit_sub.slice)
+            subst0 = {norm(ast.Subscript(value=unit_sub, slice=ast.Constant(value=1), ctx=ast.Load())): R}
+            optext = norm(ast.Subscript(value=unit_sub, slice=ast.Constant(value=0), ctx=ast.Load()))
             for x in ast.walk(idx):
-                if isinstance(x, ast.Subscript) and norm(x.slice).startswith('each(') and norm(x) not in subst0 and not any(norm(x) in k for k in subst0):
+                if isinstance(x, ast.Subscript) and norm(x.slice) == key and norm(x) != norm(unit_sub):
                     subst0[norm(x)] = J
-            if optext is None or len(subst0) < 2:
-                raise AnalysisError('_patch_access_to_globals: operand / position of a relative jump not recognised in %s' % norm(idx)[:80])
+            if len(subst0) < 2:
+                raise AnalysisError('_patch_access_to_globals: position of a relative jump in the old code not recognised in %s' % norm(idx)[:80])
             for opname in ('JUMP_BACKWARD', 'JUMP_BACKWARD_NO_INTERRUPT', 'JUMP_FORWARD', 'POP_JUMP_IF_FALSE', 'FOR_ITER', 'SEND'):
                 sub = dict(base)
                 sub['dis.opname[%s]' % optext] = opname
@@ -441,7 +450,7 @@ def r5b(repo, run):
                 want = J - R if 'BACKWARD' in opname else J + R
                 if got != want:
                     bad.add('a %s at code unit %d with operand %d is taken to target unit %r, expected %d (%s jumps go %s)' % (opname, J, R, got, want, 'BACKWARD' if 'BACKWARD' in opname else 'other', 'back' if 'BACKWARD' in opname else 'forward'))
-    if not seen_store or rows < 4:
+    if not seen or rows < 4:
         raise AnalysisError('_patch_access_to_globals: re-targeting of relative jumps not recognised (%d rows)' % rows)
     if bad:
         run.violation('C12.R5', fi, 're-targeting of relative jumps', '; '.join(sorted(bad)[:2]) + ': loops / conditionals in evaluated code jump to the wrong instruction after a name load was redirected')
